@@ -151,8 +151,7 @@ StringDictionaryHASHRPDAC::StringDictionaryHASHRPDAC(IteratorDictString *it,
     hash->finish(ic);
 
     // Building the array for the sequence
-    rp->Cdac =
-        new DAC_VLS(cdict, ic - 2, bits(rp->rules + rp->terminals), maxseq);
+    rp->Cdac = new DAC_VLS(cdict, ic, bits(rp->rules + rp->terminals), maxseq);
 
     delete[] cdict;
   }
